@@ -68,7 +68,7 @@ class Check:
                 info = loader.func_info(mod, qual)
                 info["obligations"] = 0
                 self.functions[n] = info
-            except (LookupError, FileNotFoundError, SyntaxError) as e:
+            except (loader.MissingCode, FileNotFoundError, SyntaxError) as e:
                 ok = False
                 self._record(dict(id="exists:" + n, kind="structural", functions=[n], backend="ast",
                                   verdict=REFUTED, seconds=0.0, key="function-missing",
@@ -109,7 +109,7 @@ class Check:
             tb = traceback.extract_tb(e.__traceback__)
             inner = tb[-1].filename if tb else ""
             text = "".join(traceback.format_exception(type(e), e, e.__traceback__))[-3000:]
-            if inner.startswith(loader.SRC) or isinstance(e, LookupError):
+            if inner.startswith(loader.SRC) or isinstance(e, loader.MissingCode):
                 rec.update(verdict=REFUTED, key="unexpected-%s" % type(e).__name__,
                            detail="exception raised inside the code under contract while generating the "
                                   "obligation (no contract allows it):\n" + text)
